@@ -8,9 +8,10 @@ package main
 //   into a fresh value -> reflect.DeepEqual up to norm (direct oracle);
 //   the equivalent JSON document (written by the harness) -> json.Parse -> DecodeBody;
 //   hclsimple.Decode on both; mutated / structurally perturbed contents decoded under
-//   recover() (diagnostics yes, panic never).
+//   recover() (diagnostics yes, panic never);
+//   the same value encoded into a destination body that is not fresh (dest.go).
 // Coq cases (Gohcl/ModelCheck.v): CEnc (schema, value, items read back from the written
-// file) vs encode_items; CDec (schema, parsed file, diagnostics codes + value) vs decode.
+// file) vs encode_items; CEncInto (items the destination held, schema, value, items it holds afterwards) vs encode_into; CDec (schema, parsed file, diagnostics codes + value) vs decode.
 
 import (
 	"encoding/hex"
@@ -288,9 +289,24 @@ func diagStr(d hcl.Diagnostics) string {
 
 // ---- one round-trip case -----------------------------------------------------------------------
 
-func (x *runner) roundtrip(t *Ty, rv reflect.Value, note string) {
+func (x *runner) roundtrip(t *Ty, rv reflect.Value, note string) { x.roundtripInto(t, rv, note, nil) }
+
+// roundtripInto: dest != nil -> after the ordinary round trip through a fresh file, the same value is encoded
+// into the destination dest describes (dest.go).
+func (x *runner) roundtripInto(t *Ty, rv reflect.Value, note string, dest *Dest) {
 	rep := x.rep
-	sp := &Spec{Mode: "roundtrip", Schema: t.F, Value: valToSpec(t, rv), Note: note}
+	sp := &Spec{Mode: "roundtrip", Schema: t.F, Value: valToSpec(t, rv), Note: note, Dest: dest}
+	freshOK := false
+	defer func() {
+		switch {
+		case dest == nil:
+			rep.Hist("dest:fresh-file-only")
+		case !freshOK:
+			rep.Hist("dest:skipped(round trip through a fresh file not clean)")
+		default:
+			x.destCase(t, rv, normStruct(t, rv, false), dest, sp, inUniverse(t))
+		}
+	}()
 	key := sp.String()
 	rep.Count(key, len(t.F) >= 2)
 	universe := inUniverse(t)
@@ -372,6 +388,7 @@ func (x *runner) roundtrip(t *Ty, rv reflect.Value, note string) {
 				}
 			} else {
 				rep.Hist("oracle-ok:roundtrip")
+				freshOK = !badStr
 			}
 		}
 		// 5. Coq: decode correspondence on the parsed file
@@ -703,7 +720,7 @@ func (x *runner) replay(path string) error {
 		if err != nil {
 			return err
 		}
-		x.roundtrip(t, rv, sp.Note)
+		x.roundtripInto(t, rv, sp.Note, sp.Dest)
 	case "text":
 		src, err := hex.DecodeString(sp.Text)
 		if err != nil {
@@ -720,7 +737,7 @@ func (x *runner) replay(path string) error {
 
 func runC16(cfg *hv.RunCfg) error {
 	rep := hv.NewReport("C16", cfg.Seed)
-	rep.Rule = "struct types generated from schemata (tag kinds attr/optional/block/label/remain; field types string/int/bool/pointer/slice/map, nested to depth 3; blocks as struct/*struct/[]struct/[]*struct with 0-2 labels, nesting <= 3) built with reflect.StructOf; values over the escape-relevant string alphabet, boundary ints, keyword/non-identifier/empty map keys, nil and non-nil pointers, nil/empty/non-empty slices and maps; hand corpus first; per case also mutated text and structurally perturbed files; non-trivial = struct with >= 2 fields; distinct by SHA-256 of the case spec"
+	rep.Rule = "struct types generated from schemata (tag kinds attr/optional/block/label/remain; field types string/int/bool/pointer/slice/map, nested to depth 3; blocks as struct/*struct/[]struct/[]*struct with 0-2 labels, nesting <= 3) built with reflect.StructOf; values over the escape-relevant string alphabet, boundary ints, keyword/non-identifier/empty map keys, nil and non-nil pointers, nil/empty/non-empty slices and maps; hand corpus first; per case also mutated text and structurally perturbed files; ~35% of the round-trip cases additionally encode into a destination that is NOT a fresh file (root body of a loaded file / body of a block / EncodeAsBlock appended; previously encoded with a value of the same, a sibling or another type, parsed from an earlier encoding or an old text, hand-edited; 0-3 further decode-encode cycles on the same file); non-trivial = struct with >= 2 fields; distinct by SHA-256 of the case spec"
 	r := hv.NewRng(cfg.Seed, 16)
 	x := &runner{rep: rep, r: r, cf: &hv.CaseFile{Dir: cfg.Out, Name: "c16cases",
 		Imports: "From Coq Require Import QArith String.\nFrom HclV Require Import Base.Prelude Cty.Values Cty.Convert Gohcl.Model Gohcl.ModelCheck.",
@@ -735,16 +752,24 @@ func runC16(cfg *hv.RunCfg) error {
 			rep.Hist("corpus")
 			x.roundtrip(c.t, c.v, c.note)
 		}
+		for _, c := range destCorpus() {
+			rep.Hist("corpus")
+			rep.Hist("corpus:destination")
+			x.roundtripInto(c.c.t, c.c.v, c.c.note, c.d)
+		}
 		x.markedCase()
 		for _, c := range nonWFCorpus() {
 			rep.Hist("corpus:non-wf")
 			x.nonWF(c.t, c.v, c.texts, c.note, c.skipEnc)
 		}
 		g := &gen{r: r, feat: map[string]int{}}
+		// the destination generator has its own stream: the (type, value) sequence does not depend on it
+		rd := hv.NewRng(cfg.Seed, 1604)
+		dg := &destGen{r: rd, g: &gen{r: rd, feat: map[string]int{}}}
 		for i := 0; i < cfg.N; i++ {
 			t := g.structTy(0, true)
 			rv := g.value(t)
-			x.roundtrip(t, rv, "")
+			x.roundtripInto(t, rv, "", dg.dest(t, rv))
 			x.illFormed(t, rv)
 		}
 		for k, v := range g.feat {
